@@ -50,3 +50,120 @@ Example C05_example :
   spec_output 5 (fun i j => Nat.eqb i j || (Nat.eqb i 1 && Nat.eqb j 4) || (Nat.eqb i 3 && Nat.eqb j 0)) =
   ([0; 1; 2; 0; 1]%Z, ([2; 2; 1; 0; 0]%Z, [0; 1; 2; -1; -1]%Z, [3; 4; -1; -1; -1]%Z)).
 Proof. vm_compute. reflexivity. Qed.
+
+(* ---------------------------------------------------------------- algorithmic models (C05/Model.v, C05/Algo.v) *)
+From PV Require Import C05.Renumber C05.Tail C05.Algo C05.Merge C05.MergeRel C05.FofTail C05.Spec.
+
+(* the tail of spheregroup() (renumbering in order of appearance, list rebuild, multiplicities): for ANY
+   labelling lab0 given with arrays that agree with its true lists, and any group count that is large enough,
+   it returns the canonical renumbering of lab0 and lists_of it *)
+Theorem C05_renumber_refines : forall n lab0 ing0 f0 nx0 K,
+  (forall i, i < n -> ing0 i = Z.of_nat (lab0 i)) ->
+  (forall g, f0 g = first_of n lab0 g) ->
+  (forall i, i < n -> nx0 i = next_of n lab0 i) ->
+  length (filter (isfirst n lab0) (seq 0 n)) <= K ->
+  renumber_model n ing0 f0 nx0 K
+  = (map (fun i => Z.of_nat (canon n lab0 i)) (seq 0 n), lists_of n (canon n lab0)).
+Proof. exact renumber_refines_gen. Qed.
+Print Assumptions C05_renumber_refines.
+
+(* ... and if lab0 is constant exactly on the friends-of-friends classes, that is the specification's output *)
+Theorem C05_spheregroup_tail_spec : forall n link lab0,
+  (forall i j, i < n -> j < n -> (lab0 i = lab0 j <-> clos_refl_sym_trans nat (R n link) i j)) ->
+  renumber_model n (fun i => Z.of_nat (lab0 i)) (first_of n lab0) (next_of n lab0) (ngroups n link)
+  = spec_output n link.
+Proof. exact spheregroup_tail_spec. Qed.
+Print Assumptions C05_spheregroup_tail_spec.
+
+(* the fuel lemma: under  map[g] <= g  every chase ends within g steps at a root not above g *)
+Theorem C05_chase_terminates : forall mp, dec mp -> forall fuel c, c <= fuel ->
+  mp (chase fuel mp c) = chase fuel mp c /\ chase fuel mp c <= c.
+Proof. exact chase_terminates. Qed.
+Print Assumptions C05_chase_terminates.
+
+(* path compression towards a root m: the class of c joins the class of m, no other root changes,
+   map[g] <= g is preserved *)
+Theorem C05_compress_rep : forall fuel mp c m, dec mp -> mp m = m -> m <= rep mp c -> c <= fuel ->
+  let mp' := compress (S fuel) mp c m in
+  dec mp' /\ mp' m = m /\
+  (forall y, rep mp' y = if Nat.eqb (rep mp y) (rep mp c) then m else rep mp y) /\
+  (forall x, c < x -> mp' x = mp x).
+Proof. exact compress_rep. Qed.
+Print Assumptions C05_compress_rep.
+
+(* merge_refines: after the mapGroups loop over the provisional groups pgs (in creation order):
+   nMapGroups = number of groups; map[g] <= g, map = identity above, group numbers below nMapGroups;
+   exactly the covered points carry a group number; and two points have provisional groups with the same
+   root  <->  they are joined by a chain of provisional groups sharing points *)
+Theorem C05_merge_refines : forall pgs,
+  let st := merge_model pgs in
+  m_n st = length pgs /\
+  (dec (m_map st) /\ (forall x, m_n st <= x -> m_map st x = x) /\ (forall p e, m_in st p = Some e -> e < m_n st)) /\
+  (forall p, covered pgs p <-> m_in st p <> None) /\
+  (forall p q e e', m_in st p = Some e -> m_in st q = Some e' ->
+     (rep (m_map st) e = rep (m_map st) e' <-> clos_refl_sym_trans nat (share pgs) p q)).
+Proof. exact merge_refines. Qed.
+Print Assumptions C05_merge_refines.
+
+(* the tail of chunks.friendsoffriends(): flattening, inGroup, lists, multiplicities, nGroups *)
+Theorem C05_fof_refines : forall n pgs st, Inv pgs st -> (forall p, p < n -> covered pgs p) ->
+  fof_tail_model n st =
+    (map (fun p => Z.of_nat (fof_lab st p)) (seq 0 n),
+     fst (fst (lists_of n (fof_lab st))), snd (fst (lists_of n (fof_lab st))), snd (lists_of n (fof_lab st)),
+     Z.of_nat (nroots (m_map st) (m_n st))) /\
+  (forall p q, p < n -> q < n -> (fof_lab st p = fof_lab st q <-> clos_refl_sym_trans nat (share pgs) p q)).
+Proof. exact fof_refines. Qed.
+Print Assumptions C05_fof_refines.
+
+(* the property, CONDITIONAL on the geometric hypothesis pair_coverage (every linked pair lies together in
+   some cell list) and on groups_ok (what the per-cell class groups must deliver; tied by correspondence
+   only -- groups_refines is not proved) *)
+Theorem C05_spheregroup_spec_partial : forall n link cells pgs,
+  (forall i, i < n -> link i i = true) ->
+  pair_coverage n link cells ->
+  groups_ok n link cells pgs ->
+  spheregroup_model n pgs = spec_output n link.
+Proof. exact spheregroup_spec. Qed.
+Print Assumptions C05_spheregroup_spec_partial.
+
+Example C05_example_model :
+  spheregroup_model 5 [[0; 3]; [1]; [2]; [4; 1]; [3]] =
+  ([0; 1; 2; 0; 1]%Z, ([2; 2; 1; 0; 0]%Z, [0; 1; 2; -1; -1]%Z, [3; 4; -1; -1; -1]%Z)).
+Proof. vm_compute. reflexivity. Qed.
+
+(* ---------------------------------------------------------------- the per-cell algorithm and the end-to-end theorem *)
+From PV Require Import C05.Groups C05.Full.
+
+(* class groups: before its final renumbering, two positions of the cell carry the same label exactly when a
+   chain of links inside the cell joins them (for a symmetric, reflexive link) *)
+Theorem C05_groups_labels : forall m lnk,
+  (forall a b, a < m -> b < m -> lnk a b = lnk b a) -> (forall a, a < m -> lnk a a = true) ->
+  forall a b, a < m -> b < m ->
+  (labz (g_in (gfinal m lnk)) a = labz (g_in (gfinal m lnk)) b <-> clos_refl_sym_trans nat (R m lnk) a b).
+Proof. exact gfinal_labels. Qed.
+Print Assumptions C05_groups_labels.
+
+(* groups_refines: run on every cell, class groups delivers groups_ok *)
+Theorem C05_groups_refines : forall n link cells,
+  (forall a b, a < n -> b < n -> link a b = link b a) -> (forall a, a < n -> link a a = true) ->
+  (forall c a, In c cells -> In a c -> a < n) ->
+  groups_ok n link cells (all_pgs link cells).
+Proof. exact groups_refines. Qed.
+Print Assumptions C05_groups_refines.
+
+(* THE PROPERTY, conditional on the geometric hypothesis pair_coverage only (link symmetric and reflexive,
+   cell lists contain valid indices): the complete model -- per-cell groups, mapGroups merge, friendsoffriends
+   tail, spheregroup tail -- returns (components, lists_of) *)
+Theorem C05_spheregroup_spec : forall n link cells,
+  (forall a b, a < n -> b < n -> link a b = link b a) -> (forall a, a < n -> link a a = true) ->
+  (forall c a, In c cells -> In a c -> a < n) ->
+  pair_coverage n link cells ->
+  spheregroup_full n link cells = spec_output n link.
+Proof. exact spheregroup_full_spec. Qed.
+Print Assumptions C05_spheregroup_spec.
+
+Example C05_example_full :
+  let link := fun i j => Nat.eqb i j || (Nat.eqb i 1 && Nat.eqb j 4) || (Nat.eqb i 4 && Nat.eqb j 1)
+                         || (Nat.eqb i 3 && Nat.eqb j 0) || (Nat.eqb i 0 && Nat.eqb j 3) in
+  spheregroup_full 5 link [[0; 3; 2]; [1; 4]; [4; 3]] = spec_output 5 link.
+Proof. vm_compute. reflexivity. Qed.
